@@ -21,6 +21,7 @@ claimed={
  "C16": ("LinksInFile over all layouts of each seed: link ranges real (weak part so far)",),
  "C17": ("generated from go/types at check time: for every schema type with Copy(), all fields populated symbolically, per-field equality obligations, independence of mutable containers, no write to the original",),
  "C18": ("relational G-drivers: every query on the seed at a seed position vs. on the seed with symbolic blank/comment lines inserted in a line slot at the image position; results must be identical up to the position shift (hover, completion, tokens, symbols, diagnostics, origins, targets)",),
+ "C19": ("paired G-driver: the same configuration in native and JSON syntax, both stretched independently: absolute targets agree on address, scope and type, origins agree on addresses, the outlines agree; JSON ranges are real. The pairs are enumerated (weakest use of the technique), the layouts are symbolic",),
  "C20": ("SignatureAtPos over all layouts/cursors of each seed: active parameter is a valid index",),
 }
 checks=[]
